@@ -214,6 +214,59 @@ theorem next_up (s : Renko) (c : Candle ℚ) (h : Inv s) (hv : s.next_block_uppe
     have : (truncNat q : ℚ) ≠ 0 := by linarith
     field_simp
 
+/-- falling branch (mirror of `next_up`): reaching the lower boundary means at least one whole brick; the bricks hang
+    below the old lower bound, the stored bounds are those of the last emitted brick (`upper = base·(1 − size·(len−1))`,
+    `lower = base·(1 − size·len)`), the price has fallen through all of them, the state stays consistent -/
+theorem next_down (s : Renko) (c : Candle ℚ) (h : Inv s) (hnu' : ¬ s.next_block_upper ≤ c.source s.src)
+    (hv : c.source s.src ≤ s.next_block_lower) (hpos : 0 < c.source s.src) :
+    ∃ o, (s.next c).1 = some o ∧
+      1 ≤ truncNat ((s.last_block_lower - c.source s.src) / s.last_block_lower / s.brick_size) ∧
+      o.len = truncNat ((s.last_block_lower - c.source s.src) / s.last_block_lower / s.brick_size) ∧
+      o.base_line = s.last_block_lower ∧ o.brick_size = -s.brick_size ∧
+      (s.next c).2.last_block_upper = s.last_block_lower * (1 - s.brick_size * ((o.len - 1 : ℕ) : ℚ)) ∧
+      (s.next c).2.last_block_lower = s.last_block_lower * (1 - s.brick_size * (o.len : ℚ)) ∧
+      c.source s.src ≤ (s.next c).2.last_block_lower ∧
+      Inv (s.next c).2 ∧ (s.next c).2.volume = 0 ∧
+      o.totalVolume = s.volume + c.volume := by
+  obtain ⟨hb, hb1, hll, hle, hnu, hnl⟩ := h
+  set value := c.source s.src with hvalue
+  set q := (s.last_block_lower - value) / s.last_block_lower / s.brick_size with hq
+  have hq1 : 1 ≤ q := by
+    rw [hq, le_div_iff₀ hb, le_div_iff₀ hll]
+    rw [hnl] at hv; nlinarith
+  have hq0 : 0 ≤ q := by linarith
+  have hlen1 := truncNat_ge_one hq1
+  have hmax : max (truncNat q) 1 = truncNat q := max_eq_left hlen1
+  have hL : (1 : ℚ) ≤ (truncNat q : ℚ) := by exact_mod_cast hlen1
+  have hLq := truncNat_le hq0
+  have hval : value = s.last_block_lower * (1 - s.brick_size * q) := by
+    rw [hq]; field_simp; ring
+  have hcast : (((truncNat q - 1 : ℕ)) : ℚ) = (truncNat q : ℚ) - 1 := by
+    rw [Nat.cast_sub hlen1]; simp
+  -- the new lower bound is still above the (positive) price
+  have hge : value ≤ s.last_block_lower * (1 - s.brick_size * (truncNat q : ℚ)) := by
+    rw [hval]; apply mul_le_mul_of_nonneg_left _ (le_of_lt hll); nlinarith
+  have hn : s.next c =
+      (some { len := truncNat q, brick_size := -s.brick_size, base_line := s.last_block_lower,
+              block_volume := (s.volume + c.volume) / (truncNat q : ℚ) },
+       { s with last_block_upper := s.last_block_lower * (1 - s.brick_size * ((truncNat q - 1 : ℕ) : ℚ)),
+                last_block_lower := s.last_block_lower * (1 - s.brick_size * (truncNat q : ℚ)),
+                next_block_upper := s.last_block_lower * (1 - s.brick_size * ((truncNat q - 1 : ℕ) : ℚ)) * (1 + s.brick_size),
+                next_block_lower := s.last_block_lower * (1 - s.brick_size * (truncNat q : ℚ)) * (1 - s.brick_size),
+                volume := 0 }) := by
+    unfold Renko.next
+    simp only [← hvalue, hnu', hv, ↓reduceIte, ← hq, hmax]
+  rw [hn]
+  refine ⟨_, rfl, hlen1, rfl, rfl, rfl, rfl, rfl, hge, ⟨hb, hb1, ?_, ?_, rfl, rfl⟩, rfl, ?_⟩
+  · show 0 < s.last_block_lower * (1 - s.brick_size * (truncNat q : ℚ))
+    exact lt_of_lt_of_le hpos hge
+  · show s.last_block_lower * (1 - s.brick_size * (truncNat q : ℚ)) ≤
+      s.last_block_lower * (1 - s.brick_size * ((truncNat q - 1 : ℕ) : ℚ))
+    rw [hcast]; apply mul_le_mul_of_nonneg_left _ (le_of_lt hll); nlinarith
+  · show (s.volume + c.volume) / (truncNat q : ℚ) * ((truncNat q : ℕ) : ℚ) = s.volume + c.volume
+    have : (truncNat q : ℚ) ≠ 0 := by linarith
+    field_simp
+
 /-- the emitted blocks: `len` of them, contiguous, each of relative size `brick` w.r.t. the base
     line, one direction, equal volumes adding up to the consumed volume -/
 theorem blocks_spec (o : RenkoOut) (hlen : 1 ≤ o.len) :
